@@ -919,6 +919,9 @@ static void scenario(const char *params)
         mc_task_create("peer", srv_task, NULL);
     enum mc_end end = mc_run((int)param_int(params, "horizon", 600));
     sample();
+    if (mc_steps() > 200)
+        mc_info("C13/info/long-execution", "%d scheduler steps (end=%d, client %s) [%s]", mc_steps(), end,
+                g_cli_done ? "done" : "not done", t_desc);
     oracle_conn(end);
     mc_outcome("%s tp=%s -> %s%s%s by=%s t=+%lldms conn=%d bind=%d", t_desc, g_tp,
                !g_cli_done ? "no-outcome" : (g_connected ? "connected " : ename(g_errno)),
